@@ -605,6 +605,46 @@ theorem C08_log_payload_is_json (leaf : JBytes → Prop)
   have := IsJson.arr (IsElems.one (IsJson.obj hmem))
   simpa only [List.append_assoc] using this
 
+theorem renderMembers_map (enc : JBytes → JBytes) (m : List (JBytes × JBytes)) :
+    JV.renderMembers (m.map (fun kv => (enc kv.1, JV.tok (enc kv.2)))) =
+      joinWith (bs ",") (m.map (fun kv => enc kv.1 ++ bs ":" ++ enc kv.2)) := by
+  induction m with
+  | nil => rfl
+  | cons x xs ih =>
+    cases xs with
+    | nil => simp [JV.renderMembers, JV.render, joinWith]
+    | cons y ys =>
+      simp only [List.map_cons, JV.renderMembers, JV.render, joinWith, List.append_assoc] at *
+      rw [ih]
+
+theorem wellFormedMembers_map (leaf : JBytes → Prop) (enc : JBytes → JBytes) (henc : ∀ s, IsStringToken (enc s))
+    (hs : ∀ t, IsStringToken t → leaf t) (m : List (JBytes × JBytes)) :
+    JV.WellFormedMembers leaf (m.map (fun kv => (enc kv.1, JV.tok (enc kv.2)))) := by
+  induction m with
+  | nil => trivial
+  | cons x xs ih => exact ⟨henc _, hs _ (henc _), ih⟩
+
+/-- **C08 (the label object of the log payload is a JSON object).**  For every label list the agent sends — valid and
+invalid labels in any order, repeated types — the `"attributes"` value is `{}` or a well-formed object of string members:
+no separator is written for a label that is left out. -/
+theorem C08_log_labels_object_is_json (leaf : JBytes → Prop) (hs : ∀ t, IsStringToken t → leaf t)
+    (enc : JBytes → JBytes) (henc : ∀ s, IsStringToken (enc s)) (ls : List (JBytes × JBytes)) :
+    IsJson leaf (logLabelsObject enc ls) := by
+  unfold logLabelsObject
+  simp only []
+  rw [← renderMembers_map]
+  exact render_isJson leaf (JV.obj _) (wellFormedMembers_map leaf enc henc hs _)
+
+/-- one invalid label discards the whole list (`SetLogForwardingLabels`), so the object is then empty -/
+theorem C08_log_labels_invalid_discards_all (enc : JBytes → JBytes) (ls : List (JBytes × JBytes))
+    (h : ∃ l ∈ ls, l.1 = [] ∨ l.2 = []) : logLabelsObject enc ls = bs "{" ++ bs "}" := by
+  obtain ⟨l, hl, hbad⟩ := h
+  have : ls.any (fun l => l.1.isEmpty || l.2.isEmpty) = true := by
+    rw [List.any_eq_true]
+    refine ⟨l, hl, ?_⟩
+    rcases hbad with h | h <;> simp [h]
+  simp [logLabelsObject, logLabelsKept, this, joinWith]
+
 /-- the literal pieces of the log payload split as the proof above assumes (evaluation, as for the keys) -/
 def logLiteralsOk : Bool :=
   bs "[{\"common\": {\"attributes\": " == bs "[" ++ (bs "{" ++ (bs "\"common\"" ++ (bs ": " ++ (bs "{" ++ (bs "\"attributes\"" ++ bs ": "))))) &&
